@@ -23,6 +23,9 @@ pub enum P {
     HookStaker,
     HookCollector,
     Treasury,
+    /// ibc-hooks accounts of the configuration after `UpdateConfig` (channel-9, staker n2, collector n1)
+    HookStaker2,
+    HookCollector2,
 }
 pub fn who_addr(w: &Who, p: &P) -> String {
     match p {
@@ -36,6 +39,8 @@ pub fn who_addr(w: &Who, p: &P) -> String {
         P::HookStaker => w.hook_staker.clone(),
         P::HookCollector => w.hook_collector.clone(),
         P::Treasury => w.treasury.clone(),
+        P::HookStaker2 => crate::addr::hook_sender("channel-9", &w.n2, &w.pp),
+        P::HookCollector2 => crate::addr::hook_sender("channel-9", &w.n1, &w.pp),
     }
 }
 pub fn all_principals() -> Vec<P> {
@@ -827,8 +832,16 @@ pub fn post_op(cx: &Ctx, b: &Built, op: &Op, s: &StepOut) {
         }
         Op::Rewards { sender, funds, .. } => {
             let x = input("rew");
+            if let Tx::Err(e) = &s.tx {
+                let want = crate::addr::hook_sender(&pre.cfg.protocol_chain_config.ibc_channel_id, pre.cfg.native_chain_config.reward_collector_address.as_str(), &pre.cfg.protocol_chain_config.account_address_prefix);
+                if who_addr(who, sender) == want && !stopped {
+                    claim(f, "C09:the collector's ibc-hooks account is never refused as unauthorized", !e.starts_with("Unauthorized"));
+                }
+            }
             if s.tx.is_ok() {
-                claim(f, "C08:rewards only from the reward collector's ibc-hooks account with the staked asset", *sender == P::HookCollector && *funds == Funds::Native);
+                let want = crate::addr::hook_sender(&pre.cfg.protocol_chain_config.ibc_channel_id, pre.cfg.native_chain_config.reward_collector_address.as_str(), &pre.cfg.protocol_chain_config.account_address_prefix);
+                claim(f, "C08:rewards only from the reward collector's ibc-hooks account with the staked asset", who_addr(who, sender) == want && *funds == Funds::Native);
+                claim(f, "C09:ReceiveRewards accepts only the ibc-hooks account of the current channel / collector / prefix (independent derivation)", who_addr(who, sender) == want);
                 let rate = t::ut(pre.cfg.protocol_fee_config.dao_treasury_fee);
                 let fee = t::mulratio(&rate, &x, "100000");
                 prove(f, "C11:rewards refused while no LST exists", t::gt(&pre.l, "0"));
@@ -867,8 +880,16 @@ pub fn post_op(cx: &Ctx, b: &Built, op: &Op, s: &StepOut) {
         }
         Op::ReceiveUnstaked { sender, batch, funds } => {
             let r = input("rcv");
+            if let Tx::Err(e) = &s.tx {
+                let want = crate::addr::hook_sender(&pre.cfg.protocol_chain_config.ibc_channel_id, pre.cfg.native_chain_config.staker_address.as_str(), &pre.cfg.protocol_chain_config.account_address_prefix);
+                if who_addr(who, sender) == want && !stopped {
+                    claim(f, "C09:the staker's ibc-hooks account is never refused as unauthorized", !e.starts_with("Unauthorized"));
+                }
+            }
             if s.tx.is_ok() {
-                claim(f, "C08:unstaked tokens only from the staker's ibc-hooks account with the staked asset", *sender == P::HookStaker && *funds == Funds::Native);
+                let want = crate::addr::hook_sender(&pre.cfg.protocol_chain_config.ibc_channel_id, pre.cfg.native_chain_config.staker_address.as_str(), &pre.cfg.protocol_chain_config.account_address_prefix);
+                claim(f, "C08:unstaked tokens only from the staker's ibc-hooks account with the staked asset", who_addr(who, sender) == want && *funds == Funds::Native);
+                claim(f, "C09:ReceiveUnstakedTokens accepts only the ibc-hooks account of the current channel / staker / prefix (independent derivation)", who_addr(who, sender) == want);
                 let pb = pre.batches.get(batch);
                 claim(f, "C06:only a Submitted batch whose unbonding period has elapsed becomes Received", pb.map(|b| b.status == BatchStatus::Submitted && b.next.map(|d| s.now >= d).unwrap_or(false)).unwrap_or(false));
                 let nb = &post.batches[batch];
